@@ -246,3 +246,41 @@ def main(ctx):
         for engine in (True, False):
             ctx.histories("binner-reuse(%s,%s)" % (dname, "C" if engine else "py"), [()], make_execute(dname, engine),
                           depth=hdepth, nodedup_depth=hdepth, bounds=dict(ops=[str(o) for o in HOPS], depth=hdepth))
+
+    # ------------------------------------------- several live objects (process-wide state)
+    # up to 3 Binner objects over different data alive in one process, dohist calls interleaved: sort
+    # indices, limits or scratch arrays kept at class/module level would leak from one Binner to another
+    from mc.worlds import object_world
+    WOPS = [("binsize", 1.0, None, None), ("binsize", 0.5, 0.5, None), ("nbin", 3, None, None), ("nbin", 2, 1.0, 3.7)]
+
+    def b_new(kind):
+        dname, engine = kind.split("/")
+        b = stat.Binner(np.array(HDATA[dname]))
+        b._verif_engine = engine == "C"
+        return b
+
+    def b_do(b, kind, op):
+        bkind, bval, mn, mx = op
+        kw = dict(min=mn, max=mx, rev=True, calc_stats=False)
+        kw[bkind] = bval
+        su.have_chist = b._verif_engine
+        try:
+            b.dohist(**kw)
+        finally:
+            su.have_chist = True
+        return [b["hist"].copy(), b["rev"].copy()]
+
+    def b_check(kind, op, res):
+        ref = reference(np.array(HDATA[kind.split("/")[0]]), *op)
+        if ref is None:
+            return "no datum within the limits, but the call returned %r" % ([r.tolist() for r in res],)
+        h, rev = res
+        if h.shape != ref[0].shape or not np.array_equal(h, ref[0]):
+            return "hist=%r, reference %r" % (h.tolist(), ref[0].tolist())
+        for i in range(h.size):
+            if rev[rev[i]:rev[i + 1]].tolist() != ref[1][i]:
+                return "rev slice of bin %d = %r, members %r" % (i, rev[rev[i]:rev[i + 1]].tolist(), ref[1][i])
+
+    object_world(ctx, "several-binners", ["d1/C", "d2/C", "d1/py", "d3/py"], b_new, WOPS, b_do, lambda: [su],
+                 depth=ctx.pick(4, 5), check=b_check,
+                 state=lambda b: (dict(b.__dict__), dict(b)))
